@@ -10,6 +10,59 @@ TRUSTED_COMMON = [
 ]
 
 PROPS = {
+    "C01": dict(
+        suites=[10],
+        features=[()], features_thorough=[(), ("udp",), ("nostd",)],
+        design_ref="DESIGN.md section 5, C01",
+        rule=("suite 10: public-API call sequences (set_version/type/code/message_id/token/payload, add/set/clear/clear_all option) -> packet state, "
+              "to_bytes_unlimited bytes, from_bytes of those bytes; enumerated: 14 first option numbers x 9 value lengths, number x gap pairs in both call orders "
+              "(gaps 0,1,12,13,14,255..257,268..270,1000,65000), value lengths up to 65804, the 4x4x9x8 version/type/token-length/code grid, all 120 orders of a "
+              "five-setter script, strided (thorough: every) 16-bit first option number, plus random call sequences over colliding keys with clears and re-adds; "
+              "non-trivial = well-formed call sequence (ops_wf); class by the widest option field: 1 no options / 2 short / 3 one-byte extension / 4 two-byte extension; distinct = distinct canonical input"),
+        level_text=("Theorems over all packet states and all call sequences (no size bound): C01_encode_is_wire_image (to_bytes of every well-formed state is exactly the RFC 7252 section 3 image "
+                    "of the message it denotes), C01_decode_inverts_wire_image (from_bytes inverts the image of every abstract message: versions 0-3, token 0-8, any ascending options up to 65804-byte values, payload), "
+                    "C01_roundtrip, C01_api_states_wf / C01_api_roundtrip (every sequence of public API calls, in any order, builds such a state and round-trips). "
+                    "The 13/269/65535 thresholds are case splits closed by lia; the index-based decoder is connected through a proved refinement to a suffix parser."),
+        level_note=("The Gallina models of to_bytes_internal/from_bytes/the option API are hand-written; faithfulness is checked each run by differential execution (dev and release builds; udp and no-default-features in the thorough tier). "
+                    "The theorem that the state equals a last-writer-wins specification of the call sequence (spec_run) is checked by the run-time oracle on every case, not proved."),
+        modelled="src/packet.rs Packet::{new,set_token,add_option,set_option,clear_option,clear_all_options,to_bytes_internal,from_bytes}; src/header.rs bit-field setters, MessageClass<->u8",
+    ),
+    "C02": dict(
+        suites=[20],
+        design_ref="DESIGN.md section 5, C02",
+        rule=("suite 20: byte strings -> from_bytes -> to_bytes_unlimited; enumerated: all strings of <= 2 bytes (+ third byte) alone and after each of 3 (thorough 12) headers, every first byte x token shortfalls, "
+              "every option header byte x every one-byte extension x boundary two-byte extensions x exact/short value, cumulative numbers around 65535, every prefix and 10 single-byte corruptions per position of "
+              "generated well-formed messages, biased random strings, values of 65535..65804 bytes; non-trivial = all cases, class 1 must-accept / 2 either / 3 must-reject per the reference parser; distinct = distinct input"),
+        level_text=("Theorem C02_decode_then_encode: for every byte string and every decoder policy, if from_bytes accepts then to_bytes_unlimited of the result succeeds and equals the input up to exactly the permitted "
+                    "differences (trailing marker, content of a 0.00 message), stated as the boolean canonb which the run-time oracle also evaluates on implementation output; C02_injective as corollary. Unbounded: induction over the option list."),
+        level_note="Hand-written models of from_bytes / to_bytes_internal tied to the Rust by differential execution on ~4*10^5 strings per build (dev and release).",
+        modelled="src/packet.rs Packet::from_bytes, to_bytes_internal; src/header.rs MessageClass<->u8",
+    ),
+    "C03": dict(
+        suites=[30],
+        design_ref="DESIGN.md section 5, C03",
+        rule=("suite 30: same generator as suite 20; verdict = agreement with the three-valued reference parser of WireSpec.v (must-accept with fields / either / must-reject) and no panic; "
+              "non-trivial = all cases, classes 1/2/3 = must-accept / either / must-reject; distinct = distinct input"),
+        level_text=("Theorem C03_matches_reference: for every byte string and policy the index-based decoder model (each buf[i], slice and typed addition a potential Panic) returns Ok with exactly the grammar's fields on "
+                    "must-accept inputs, Err on must-reject inputs, and Ok-or-(strict-policy)-Err on the 'either' inputs; C03_total (never Panic) follows. The reference parser is itself proved to accept every wire image "
+                    "(C03_reference_accepts_wire_image, C03_accepts) and only wire images (C03_reference_accepts_only_wire_images)."),
+        level_note=("Hand-written decoder model tied to the Rust by differential execution (dev with overflow checks, release without) with panic capture; the reject classes of the property text are decided through the reference parser "
+                    "(proved sound and complete against wire_image), not stated one by one. Stack exhaustion / allocation failure are outside the model."),
+        modelled="src/packet.rs Packet::from_bytes; src/header.rs HeaderRaw::try_from, get_token_length",
+    ),
+    "C04": dict(
+        suites=[40],
+        features=[(), ("udp",)], features_thorough=[(), ("udp",)],
+        design_ref="DESIGN.md section 5, C04",
+        rule=("suite 40: (message, entry point, limit) triples; messages constructed to land on limit-2..limit+2 via payload, via option bytes and via both, limits {0,3,4,5,6,17,64,255,256,1279,1280,1281,64000,64001,random}, "
+              "default entry point around MAX_SIZE (read from the build: 1280 / 64000 with udp) for every token length, 0.00 messages with unsent payloads, option values of 65803..131342 bytes, random messages x random limits; "
+              "classes 1 fits / 2 exactly at limit / 3 one over / 4 further over / 5 unlimited / 6 over-long value; non-trivial = API-buildable state; distinct = distinct input"),
+        level_text=("Theorem C04_limit_exact: for every well-formed state and every limit, to_bytes_internal returns the wire image iff wire_len <= limit and InvalidPacketLength otherwise; C04_length: the image has exactly wire_len bytes "
+                    "(4 + token + options + marker/payload when sent); C04_oversize_value_refused; C04_no_panic. Unbounded over messages and limits."),
+        level_note=("Model tied by differential execution on default and udp builds, dev and release. The memory-safety clause (raw-pointer copies stay inside reserved capacity) is a runtime fact about the compiled code: "
+                    "it is covered only in so far as the output bytes equal the model's on every case; see DESIGN.md section 7."),
+        modelled="src/packet.rs Packet::to_bytes, to_bytes_with_limit, to_bytes_unlimited, to_bytes_internal",
+    ),
     "C07": dict(
         suites=[70],
         design_ref="DESIGN.md section 5, C07",
@@ -29,10 +82,6 @@ PROPS = {
 
 # properties not yet claimed (being built); kept current with MANIFEST.not_applicable
 NOT_APPLICABLE = {
-    "C01": "check under construction in this development (model and theorems not yet committed)",
-    "C02": "check under construction in this development (model and theorems not yet committed)",
-    "C03": "check under construction in this development (model and theorems not yet committed)",
-    "C04": "check under construction in this development (model and theorems not yet committed)",
     "C05": "check under construction in this development (model and theorems not yet committed)",
     "C06": "check under construction in this development (model and theorems not yet committed)",
     "C08": "check under construction in this development (model and theorems not yet committed)",
